@@ -9,6 +9,11 @@ The exact sides of the C10 checks are interval integrals of real analysis (Mathl
 import Mathlib.Analysis.SpecialFunctions.Integrals.Basic
 import CompmechVerif.Bardell.Lemmas
 
+set_option linter.unusedSectionVars false
+set_option linter.unusedSimpArgs false
+set_option linter.unnecessarySeqFocus false
+set_option linter.unusedVariables false
+
 namespace Compmech.C10
 open Compmech IPoly intervalIntegral
 
